@@ -182,9 +182,6 @@ func genbankVersionParser(gb *GenBank, depth int) pars.Parser {
 }
 
 func genbankDBLinkPairParser(gb *GenBank, depth int) pars.Parser {
-	// Dictionary.Set finds a key by walking the list, once per entry: keep
-	// an index of the keys of this record instead.
-	index := map[string]int{}
 	return func(state *pars.State, result *pars.Result) error {
 		pars.Line(state, result)
 		s := string(result.Token)
@@ -196,12 +193,9 @@ func genbankDBLinkPairParser(gb *GenBank, depth int) pars.Parser {
 				return pars.NewError("expected value after `:`", state.Position())
 			}
 			db, id := s[:i], s[i+2:]
-			if j, ok := index[db]; ok {
-				gb.Fields.DBLink[j].Value = id
-			} else {
-				index[db] = len(gb.Fields.DBLink)
-				gb.Fields.DBLink = append(gb.Fields.DBLink, Pair{db, id})
-			}
+			// One entry per line, as the writer writes them: a database may
+			// well be named twice.
+			gb.Fields.DBLink = append(gb.Fields.DBLink, Pair{db, id})
 			return nil
 		}
 	}
